@@ -11,6 +11,7 @@ import Driver.Det
 import Driver.Util
 import Driver.Listing
 import Driver.Macro
+import Driver.Link
 
 def dispatch (line : String) : String :=
   match (line.trimAscii.toString.splitOn " ").filter (· ≠ "") with
@@ -45,6 +46,7 @@ def dispatch (line : String) : String :=
   | "unum" :: args => Driver.Util.handleNum args
   | "lst" :: args => Driver.Listing.handle args
   | "mexp" :: args => Driver.Macro.handleMexp args
+  | "link" :: args => Driver.Link.handle args
   | _ => "bad-op"
 
 partial def loop (h : IO.FS.Stream) (out : IO.FS.Stream) : IO Unit := do
